@@ -58,7 +58,12 @@ func scenario(c cfg) *explore.Scenario {
 		x.AutoTimers = false
 	}
 	sc.Body = func(x *vrt.Exec) {
-		lab := chlab.New(x, chlab.Timing{}, c.seed)
+		timing := chlab.Timing{}
+		if strings.HasSuffix(c.pre, "-idle") {
+			// short intervals so that "idle until every session has expired" is a short prefix
+			timing = chlab.Timing{Rekey: 4 * time.Second, KeepAlive: 2 * time.Second, Reject: 6 * time.Second, Handshake: 100 * time.Millisecond}
+		}
+		lab := chlab.New(x, timing, c.seed)
 		defer lab.Close()
 		r := &result{lab: lab}
 		x.Data = r
@@ -72,7 +77,7 @@ func scenario(c cfg) *explore.Scenario {
 		if c.pre != "" {
 			// start from a non-initial state: an established session between X and B
 			a, b := r.x, r.b
-			if c.pre == "b-dials-x" {
+			if strings.HasPrefix(c.pre, "b-dials-x") {
 				a, b = r.b, r.x
 			}
 			started[a.Name] = true
@@ -84,6 +89,24 @@ func scenario(c cfg) *explore.Scenario {
 			}
 			lab.FairSuffix(horizon, func() bool { return a.SendReturned > 0 && len(lab.Flight) == 0 })
 			_ = b
+			if strings.HasSuffix(c.pre, "-idle") {
+				// the peer falls silent: every packet is lost until all sessions of the channel have
+				// expired (keep-alive, then reject-after), then X is asked to send again, which is
+				// what makes a channel sweep its expired sessions
+				for x.Now < timing.Reject+2*timing.KeepAlive+time.Second {
+					for len(lab.Flight) > 0 {
+						lab.Drop(lab.Flight[0])
+					}
+					if !lab.Fire() {
+						x.Advance(time.Second)
+					}
+				}
+				for len(lab.Flight) > 0 {
+					lab.Drop(lab.Flight[0])
+				}
+				lab.StartSend(r.x, "after-idle-from-X")
+				started["X"] = true
+			}
 		}
 		for step := 0; step < c.depth; step++ {
 			type act struct {
@@ -127,7 +150,8 @@ func scenario(c cfg) *explore.Scenario {
 		}
 		// a handshake by another key must not disturb an established session
 		// (only while the established session cannot have idled out: the keep-alive window)
-		if len(r.x.KeyHistory) == 1 && !r.impure && x.Now < p2pke.KeepAliveTimeout {
+		// (not after the idle prefix: re-establishing a channel after an outage is C07's subject)
+		if len(r.x.KeyHistory) == 1 && !r.impure && x.Now < p2pke.KeepAliveTimeout && !strings.HasSuffix(c.pre, "-idle") {
 			var peer *chlab.Node
 			switch r.x.KeyHistory[0] {
 			case "b":
@@ -235,6 +259,10 @@ func main() {
 		for _, pre := range []string{"x-dials-b", "b-dials-x"} {
 			scs = append(scs, scenario(cfg{pred: pred, depth: depth, db: db, seed: 1, pre: pre}))
 		}
+	}
+	// "forever": the binding must survive the expiry of every session of the channel
+	for _, pre := range []string{"x-dials-b-idle", "b-dials-x-idle"} {
+		scs = append(scs, scenario(cfg{pred: "all", depth: depth, db: db, seed: 1, pre: pre}))
 	}
 	explore.Main(run, scs, evid.Pick(run, 150*time.Second, 20*time.Minute))
 	run.Set("depth", depth)
